@@ -156,12 +156,13 @@ def module_functions_by_name(tree) -> Dict[str, List[ast.AST]]:
     return out
 
 
-def references(tree, name: str) -> Tuple[List[Tuple[ast.AST, ast.Call]], int]:
+def references(tree, name: str, pm=None) -> Tuple[List[Tuple[ast.AST, ast.Call]], int]:
     """([(enclosing function | None, call)], number of non-call references) of `name` / `<x>.name` in tree."""
-    pm: Dict[ast.AST, ast.AST] = {}
-    for p in ast.walk(tree):
-        for ch in ast.iter_child_nodes(p):
-            pm[ch] = p
+    if pm is None:
+        pm = {}
+        for p in ast.walk(tree):
+            for ch in ast.iter_child_nodes(p):
+                pm[ch] = p
     calls, other = [], 0
     for n in ast.walk(tree):
         hit = (isinstance(n, ast.Attribute) and n.attr == name and isinstance(n.ctx, ast.Load)) or (isinstance(n, ast.Name) and n.id == name and isinstance(n.ctx, ast.Load))
@@ -210,10 +211,10 @@ def transitive_owner(ctx, fkey: str, owners: Iterable[str], prefix="orm/", depth
         for m in ctx.index.all_modules():
             if not m.relpath.startswith(prefix) or name not in m.source:
                 continue
-            calls, other = references(m.tree, name)
+            pm = m.parents()
+            calls, other = references(m.tree, name, pm)
             if other:
                 return None
-            pm = m.parents()
             for encl, c in calls:
                 n_calls += 1
                 if encl is None:
@@ -232,3 +233,80 @@ def transitive_owner(ctx, fkey: str, owners: Iterable[str], prefix="orm/", depth
     if r is None or fkey in owners:
         return None
     return "private helper called only by the owner(s) " + ", ".join(x.partition("::")[2] for x in r)
+
+
+# ---------------------------------------------------------------------- helpers that re-key a state handed to them
+class KeyStoreHelper:
+    """Summary of a function F(…, p, …) of a module that assigns `p.key = <value>` on a possibly registered state `p`:
+    `discards_first` -- every path to the store passes an identity-map discard of p inside F;
+    `registers_after` -- F registers p again after the store.  What F does not do itself is the duty of its callers, where a
+    call `F(x)` is treated as the key store on x."""
+
+    def __init__(self, fn, param, index, bound, discards_first, registers_after):
+        self.fn, self.param, self.index, self.bound = fn, param, index, bound
+        self.discards_first, self.registers_after = discards_first, registers_after
+        self.sites: List[Tuple[ast.AST, ast.Call, Optional[str]]] = []  # (caller fn, call, variable passed | None)
+
+    @property
+    def followed(self) -> bool:
+        """Every use of F in the module is a call that passes a plain local as the state."""
+        return bool(self.sites) and all(v is not None for _, _, v in self.sites)
+
+
+def key_store_helpers(ctx, m, disc_pred, reg_pred, guard_atoms_of) -> Dict[str, KeyStoreHelper]:
+    """{function name: KeyStoreHelper} for the functions of module `m` (unique by name) that store the key of one of their
+    parameters.  disc_pred(call, var, fn) / reg_pred(call, var, fn): the call discards / registers `var`;
+    guard_atoms_of(g, fn, node) -> atom set."""
+    from ._helpers_rules_d import call_nodes
+    pm = m.parents()
+    byname = module_functions_by_name(m.tree)
+    out: Dict[str, KeyStoreHelper] = {}
+    for name, fns in byname.items():
+        if len(fns) != 1:
+            continue
+        fn = fns[0]
+        if not any(isinstance(n, ast.Attribute) and n.attr == "key" and isinstance(n.ctx, ast.Store) for n in ast.walk(fn)):
+            continue
+        bound = is_bound_method(fn, pm)
+        params = [x.arg for x in fn.args.posonlyargs + fn.args.args]
+        pos = params[1:] if bound else params
+        for p in pos:
+            stores = []
+            for n in walk_local(fn):
+                if isinstance(n, ast.Assign) and not (isinstance(n.value, ast.Constant) and n.value.value is None):
+                    if any(isinstance(t, ast.Attribute) and t.attr == "key" and isinstance(t.value, ast.Name) and t.value.id == p for t in n.targets):
+                        stores.append(n)
+            if not stores or any(n == p and st is not None for n, v, st in name_stores(fn)):
+                continue  # no store / the parameter is rebound
+            g = ctx.cfg(fn)
+            N = [x for st in stores for x in g.nodes_for(st)]
+            N = [x for x in N if (f"{p}.key is None", True) not in guard_atoms_of(g, fn, x) and (f"{p}.key", False) not in guard_atoms_of(g, fn, x)]
+            if not N:
+                continue  # first key of an unregistered state only
+            disc = call_nodes(g, lambda c: disc_pred(c, p, fn))
+            reg = call_nodes(g, lambda c: reg_pred(c, p, fn))
+            d_first = bool(disc) and all(g.witness([g.entry], [x], avoid=disc) is None for x in N)
+            r_after = bool(reg) and all(g.witness([x], reg) is not None for x in N)
+            h = KeyStoreHelper(fn, p, pos.index(p), bound, d_first, r_after)
+            calls, other = references(m.tree, name, pm)
+            for encl, c in calls:
+                b = bind_args(fn, c, bound and isinstance(c.func, ast.Attribute)) if encl is not None else None
+                a = b.get(p) if b else None
+                h.sites.append((encl, c, a.id if isinstance(a, ast.Name) else None))
+            if other:
+                h.sites.append((None, None, None))
+            out[name] = h
+            break
+    return out
+
+
+def helper_key_stores(fn, helpers: Dict[str, KeyStoreHelper]) -> Dict[str, List[Tuple[ast.stmt, KeyStoreHelper, ast.Call]]]:
+    """{variable: [(statement, helper, call)]}: calls inside `fn` of a followed key-storing helper, i.e. key stores on `variable`."""
+    out: Dict[str, List[Tuple[ast.stmt, KeyStoreHelper, ast.Call]]] = {}
+    for h in helpers.values():
+        if not h.followed:
+            continue
+        for encl, c, var in h.sites:
+            if encl is fn and var is not None:
+                out.setdefault(var, []).append((None, h, c))
+    return out
